@@ -50,6 +50,7 @@ type Exec struct {
 	curCallArg0  ssa.Value
 	curCall      *ssa.CallCommon
 	curStoreVal  *Val
+	onlyProps    []string
 	defaultSpecs map[string]*FuncSpec
 	entryFacts bool
 	witnesses  map[string]Val
@@ -143,6 +144,10 @@ func (e *Exec) oblige(fr *frame, st *State, kind, desc string, pos token.Pos, go
 		}
 		if e.spec != nil {
 			o.Props = e.spec.Props
+		}
+		if e.onlyProps != nil {
+			o.Props = e.onlyProps
+			o.Restricted = true
 		}
 		o.Soft = base == "ovf"
 		e.ctx.obls = append(e.ctx.obls, o)
